@@ -93,6 +93,16 @@ class BBoxInterp(RelabelInterp):
     def call_builtin(self, name, args, kwargs, node):
         if name == "slice":
             return Tagged("slice", list(args))
+        if name in ("max", "min") and len(args) == 2 and not kwargs and all(isinstance(a, (tuple, list)) for a in args) and len(args[0]) == len(args[1]) >= 1:
+            # two whole sequences: python compares them lexicographically (first differing position decides), not
+            # position by position
+            a, b = args
+            for x, y in zip(a, b):
+                if self.truth(self.compare(ast.Gt(), x, y, node), node):
+                    return a if name == "max" else b
+                if self.truth(self.compare(ast.Lt(), x, y, node), node):
+                    return b if name == "max" else a
+            return a
         if name == "min" and args:
             items = list(args[0]) if len(args) == 1 and isinstance(args[0], (list, tuple)) else list(args)
             if items and all(self.lv(x) is not None for x in items):
